@@ -232,6 +232,10 @@ func newLikeIndexCmp(filterValue string, isLike bool, isCaseInsensitive bool) (*
 	}
 	if isCaseInsensitive {
 		matcher.value = strings.ToLower(filterValue)
+		// the value is compared in lower case, so must be the parts around a % in the middle
+		for i := range matcher.startAndEnd {
+			matcher.startAndEnd[i] = strings.ToLower(matcher.startAndEnd[i])
+		}
 	} else {
 		matcher.value = filterValue
 	}
